@@ -26,8 +26,10 @@ CallableKinds == {"function", "method", "static", "classmethod", "ctor"}
 \* the docstring as preferred type source - which decides types only: defaults and optionality are those of the Python parameter list
 \* "refunction": the function is defined twice; the later definition (the scenario's parameter list) is the function, the earlier one
 \* (which shares the first parameter name) is gone
-CkCode(c) == CASE c = "refunction" -> 9 [] c = "docfunction" -> 8 [] c = "function" -> 0 [] c = "method" -> 1 [] c = "static" -> 2 [] c = "classmethod" -> 3 [] c = "ctor" -> 4 [] c = "starmethod" -> 5 [] c = "starctor" -> 6 [] c = "newmethod" -> 7
-HasReceiver(c) == c \in {"method", "classmethod", "ctor", "newmethod"}
+\* "dataclass": the constructor that @dataclass derives from the annotated fields of the class (positional-or-keyword parameters in field
+\* order, a field's value is the default)
+CkCode(c) == CASE c = "dataclass" -> 10 [] c = "refunction" -> 9 [] c = "docfunction" -> 8 [] c = "function" -> 0 [] c = "method" -> 1 [] c = "static" -> 2 [] c = "classmethod" -> 3 [] c = "ctor" -> 4 [] c = "starmethod" -> 5 [] c = "starctor" -> 6 [] c = "newmethod" -> 7
+HasReceiver(c) == c \in {"method", "classmethod", "ctor", "newmethod", "dataclass"}
 
 (* Literal defaults: Python source text, literal type, canonical value (Python value semantics, B.7). *)
 Lits == <<
@@ -89,6 +91,8 @@ Universe ==
   UNION { { Scenario(n, sd, "docfunction", ann, FALSE) : sd \in Shapes(n), ann \in BOOLEAN } : n \in 1..2 }
   \cup
   UNION { { Scenario(n, sd, "refunction", ann, FALSE) : sd \in Shapes(n), ann \in BOOLEAN } : n \in 1..2 }
+  \cup
+  UNION { { Scenario(n, sd, "dataclass", TRUE, FALSE) : sd \in { x \in Shapes(n) : \A j \in 1..n : x[1][j] = "pos" } } : n \in 1..MaxP }
   \cup
   UNION { { Scenario(n, sd, ck, TRUE, TRUE) :
               sd \in { x \in Shapes(n) : x[1][1] \in {"posonly", "pos"} }, ck \in {"function", "static"} } : n \in 1..MaxP }
